@@ -15,6 +15,10 @@ EXTENDS Integers, Sequences, FiniteSets, TLC
 
 CONSTANTS Peers, Reqs, PieceOfReq, Servable, Pieces, MaxSteps, QMax
 
+\* request classes whose length exceeds what the client is willing to serve in one reply (128 KiB): the reply buffer is
+\* allocated from the length field, so such a request must be refused on arrival (rejected with the fast extension, dropped without)
+TooLong == Reqs \cap {"rh"}
+
 VARIABLES interested, unchoking, queue, canFast, verified, num, sentPieces, wire, steps, last
 
 vars == <<interested, unchoking, queue, canFast, verified, num, sentPieces, wire, steps, last>>
@@ -60,7 +64,7 @@ TorUnchoke(p, u) ==
 
 Request(p, rq) ==
   /\ Step([a |-> "Request", p |-> p, r |-> rq])
-  /\ IF ~unchoking[p] THEN Emit(p, Rejects(p, <<rq>>)) /\ UNCHANGED queue
+  /\ IF ~unchoking[p] \/ rq \in TooLong THEN Emit(p, Rejects(p, <<rq>>)) /\ UNCHANGED queue   \* over-long requests are never queued
      ELSE IF Len(queue[p]) >= QMax THEN      \* head drop
         /\ queue' = [queue EXCEPT ![p] = Append(Tail(@), rq)]
         /\ Emit(p, Rejects(p, <<Head(queue[p])>>))
